@@ -927,7 +927,8 @@ fn sc_autoclose_one_owner_two_tokens(t: &mut Tracer) {
     w.pos_create(&b, Some("p".into()), DAY, None, &[coin(1000, lp.clone())]);
     w.pos_create(&b, Some("q".into()), DAY, None, &[coin(1000, lp2.clone())]);
     w.advance(2 * DAY);
-    w.claim(&b, None, &[]);
+    w.claim(&b, Some(1), &[]); // one of the two epochs of a and b: half of each budget stays unclaimed
+    w.pos_close(&b, "u-p", None, &[]);
     w.advance(33 * DAY);
     let fn_ = w.fee_funds(&coin(5_000, "uusd"));
     w.create_farm(&d, &lp, None, None, coin(5_000, "uusd"), Some("next".into()), &fn_);
